@@ -276,7 +276,9 @@ def run_case(case):
             exc = type(x).__name__
         W.sink = None
         sinks.append({'got': got, 'exc': exc,
-                      'buf': bytes(p._LogSink__buf).hex(), 'len': p._LogSink__len})
+                      'buf': (None if getattr(p, '_LogSink__buf', None) is None
+                              else bytes(p._LogSink__buf).hex()),
+                      'len': getattr(p, '_LogSink__len', None)})
     return {'steps': steps,
             'wires': [{'bytes': bytes(c['bytes']).hex(), 'ids': c['ids'],
                        'closed': c['sock'].closed} for c in W.conns],
